@@ -244,4 +244,38 @@ example : WF ⟨⟨0, 1, 1, 0x7FF, 3, 16383, 8⟩, ⟨0b1010, 17, 1, 0xBEEF⟩, 
   refine ⟨by decide, ?_, by decide⟩
   unfold WFSec; decide
 
+/-- **the encoding is injective on the domain**: two valid telecommands with the same octets are the
+    same telecommand (corollary of `C02_roundtrip`) -/
+theorem C02_pack_injective (a b : Tc) (wa : WF a) (wb : WF b)
+    (h : Spec.octets a = Spec.octets b) : a = b := by
+  have r1 := C02_roundtrip a wa []
+  have r2 := C02_roundtrip b wb []
+  rw [h, r2] at r1
+  exact (Except.ok.inj r1).symm
+
+/-- the same for the library's `pack()` and as an iff: valid telecommands are equal exactly when they
+    pack to the same octets (so telecommands that differ in any field never share an encoding) -/
+theorem C02_pack_eq_iff (a b : Tc) (wa : WF a) (wb : WF b) : a.pack = b.pack ↔ a = b := by
+  constructor
+  · intro h
+    rw [C02_pack_exact a wa, C02_pack_exact b wb] at h
+    exact C02_pack_injective a b wa wb (Except.ok.inj h)
+  · rintro rfl; rfl
+
+-- non-vacuity of the injectivity hypotheses: two distinct valid telecommands (they differ in the
+-- last application data octet only), whose encodings differ
+example : WF ⟨⟨0, 1, 1, 0x7FF, 3, 16383, 8⟩, ⟨0b1010, 17, 1, 0xBEEF⟩, [1, 2]⟩ ∧
+    WF ⟨⟨0, 1, 1, 0x7FF, 3, 16383, 8⟩, ⟨0b1010, 17, 1, 0xBEEF⟩, [1, 3]⟩ ∧
+    Spec.octets ⟨⟨0, 1, 1, 0x7FF, 3, 16383, 8⟩, ⟨0b1010, 17, 1, 0xBEEF⟩, [1, 2]⟩ ≠
+      Spec.octets ⟨⟨0, 1, 1, 0x7FF, 3, 16383, 8⟩, ⟨0b1010, 17, 1, 0xBEEF⟩, [1, 3]⟩ := by
+  have w1 : WF ⟨⟨0, 1, 1, 0x7FF, 3, 16383, 8⟩, ⟨0b1010, 17, 1, 0xBEEF⟩, [1, 2]⟩ := by
+    refine ⟨by decide, ?_, by decide⟩
+    unfold WFSec; decide
+  have w2 : WF ⟨⟨0, 1, 1, 0x7FF, 3, 16383, 8⟩, ⟨0b1010, 17, 1, 0xBEEF⟩, [1, 3]⟩ := by
+    refine ⟨by decide, ?_, by decide⟩
+    unfold WFSec; decide
+  refine ⟨w1, w2, fun h => ?_⟩
+  have := C02_pack_injective _ _ w1 w2 h
+  exact absurd this (by decide)
+
 end SpVerif.Props.C02
